@@ -110,9 +110,14 @@ func prctl(option uintptr, args ...uintptr) error {
 
 // seccomp syscall wrapper.
 func seccomp(op uintptr, flags FilterFlag, uargs unsafe.Pointer) error {
-	_, _, e := syscall.Syscall(unix.SYS_SECCOMP, op, uintptr(flags), uintptr(uargs))
+	r1, _, e := syscall.Syscall(unix.SYS_SECCOMP, op, uintptr(flags), uintptr(uargs))
 	if e != 0 {
 		return e
+	}
+	if r1 != 0 {
+		// With SECCOMP_FILTER_FLAG_TSYNC the kernel returns the ID of a thread
+		// that could not be synchronized. No filter has been installed then.
+		return fmt.Errorf("thread %d could not be synchronized to the filter", r1)
 	}
 	return nil
 }
